@@ -4,7 +4,7 @@ Refuting events: two expansions of one abbreviation under different formatting o
 tag / attribute / text streams differ; comments that change anything but comment text; a
 self-closing style that changes more than the ` /` or `/` before `>`; a line whose leading
 whitespace is not baseIndent + indent x (elements open at that point)."""
-from .. import core, gen_abbr, outparse, probes
+from .. import core, gen_abbr, hostile, outparse, probes
 
 ID = 'C12'
 RULE = ('cases = (abbreviation, syntax, formatting option set): generated abbreviations (elements, groups, climbs, repeaters, ids/classes/attributes, single- and '
@@ -108,7 +108,7 @@ class Mon:
     def __init__(self, ctx):
         import emmet
         self.ctx = ctx
-        self.expand = emmet.expand
+        self.expand = hostile.wrap(emmet.expand, ctx)
 
     def run(self, abbr, syntax, opts):
         o = dict(opts)
